@@ -258,11 +258,23 @@ def const_value(node, tu=None):
         if a is None or b is None:
             return None
         op = node["opcode"]
-        try:
-            return {"+": a + b, "-": a - b, "*": a * b, "<<": a << b, ">>": a >> b, "|": a | b, "&": a & b,
-                    "^": a ^ b}[op]
-        except KeyError:
-            return None
+        if op == "+":
+            return a + b
+        if op == "-":
+            return a - b
+        if op == "*":
+            return a * b
+        if op == "<<":
+            return a << b if 0 <= b < 128 else None
+        if op == ">>":
+            return a >> b if 0 <= b < 128 else None
+        if op == "|":
+            return a | b
+        if op == "&":
+            return a & b
+        if op == "^":
+            return a ^ b
+        return None
     if k == "DeclRefExpr" and tu is not None:
         rid = node.get("referencedDecl", {}).get("id")
         return tu.enumval.get(rid)
@@ -402,11 +414,52 @@ def cut_defines(relfile, regex):
     return "\n".join(out) + "\n"
 
 
-def parse_extract(relfile, names, prelude_file, defines=()):
+def cut_decl(relfile, what):
+    """verbatim cut of a top-level declaration of a real header: what = "struct NAME" | "enum NAME" (the definition with
+    its braces, up to the closing `;`), "include" (the whole file) or "define REGEX"."""
+    path = repo(relfile)
+    if not os.path.exists(path):
+        raise Unsupported("header %s missing" % path)
+    src = open(path, encoding="utf-8", errors="replace").read()
+    if what == "include":
+        return '#line 1 "%s"\n%s\n' % (path, src)
+    if what.startswith("define "):
+        return cut_defines(relfile, what[7:])
+    if what.startswith("proto "):
+        # a forward declaration `... NAME(...);` at file scope (one statement, verbatim)
+        nm = what[6:]
+        for m in re.finditer(r"^[A-Za-z_][^;{}()]*\b%s\s*\([^;{}]*\)\s*;" % re.escape(nm), src, re.M):
+            line = src.count("\n", 0, m.start()) + 1
+            return '#line %d "%s"\n%s\n' % (line, path, m.group(0))
+        raise Unsupported("no prototype of %s in %s" % (nm, relfile))
+    m = re.search(r"^%s\s*\{" % re.escape(what), src, re.M)
+    if not m:
+        raise Unsupported("%s not defined in %s" % (what, relfile))
+    depth = 0
+    for i in range(m.end() - 1, len(src)):
+        if src[i] == "{":
+            depth += 1
+        elif src[i] == "}":
+            depth -= 1
+            if depth == 0:
+                j = src.index(";", i)
+                line = src.count("\n", 0, m.start()) + 1
+                return '#line %d "%s"\n%s\n' % (line, path, src[m.start():j + 1])
+    raise Unsupported("unbalanced braces in %s" % relfile)
+
+
+def extract_flags(includes=()):
+    out = ["-I", repo("src/shared/libosmocore/include"), "-I", os.path.join(SHIM, "host", "a", "b"), "-I", SHIM]
+    for d in includes:
+        out += ["-I", repo(d)]
+    return out
+
+
+def parse_extract(relfile, names, prelude_file, defines=(), decls=(), includes=()):
     """Cut `names` (functions) verbatim out of the real file and parse them behind the prelude.
     defines = [(header relfile, macro-name regex)]: #define lines cut verbatim from real headers, inserted at the
     prelude's /*@CUT-DEFINES@*/ marker."""
-    key = (core.REPO, relfile, tuple(names), prelude_file, tuple(defines))
+    key = (core.REPO, relfile, tuple(names), prelude_file, tuple(defines), tuple(decls), tuple(includes))
     if key in _CACHE:
         return _CACHE[key]
     path = repo(relfile)
@@ -419,9 +472,14 @@ def parse_extract(relfile, names, prelude_file, defines=()):
         if "/*@CUT-DEFINES@*/" not in prelude:
             raise Unsupported("prelude %s has no /*@CUT-DEFINES@*/ marker" % prelude_file)
         prelude = prelude.replace("/*@CUT-DEFINES@*/", cut + '#line 1 "shim/%s (continued)"\n' % prelude_file)
+    if decls:
+        if "/*@CUT-DECLS@*/" not in prelude:
+            raise Unsupported("prelude %s has no /*@CUT-DECLS@*/ marker" % prelude_file)
+        cutd = "".join(cut_decl(h, w) for h, w in decls)
+        prelude = prelude.replace("/*@CUT-DECLS@*/", cutd + '#line 1 "shim/%s (continued)"\n' % prelude_file)
     parts = [prelude]
     info = {"file": relfile, "prelude": "shim/" + prelude_file, "prelude_sha256": hashlib.sha256(prelude.encode()).hexdigest(),
-            "defines_cut_from": [list(d) for d in defines], "functions": {}, "dropped": "logging macro calls (LOGP/printf-like) expand to nothing: their argument "
+            "defines_cut_from": [list(d) for d in defines], "decls_cut_from": [list(d) for d in decls], "functions": {}, "dropped": "logging macro calls (LOGP/printf-like) expand to nothing: their argument "
                                          "expressions are not evaluated; everything else is the unmodified text"}
     texts = {}
     for nm in names:
@@ -432,13 +490,13 @@ def parse_extract(relfile, names, prelude_file, defines=()):
                                  "sha256": hashlib.sha256(text.encode()).hexdigest(), "bytes": len(text)}
         parts.append('#line %d "%s"\n%s\n' % (line, path, text))
     tu_text = "\n".join(parts)
-    args = ["-x", "c", "-I", repo("src/shared/libosmocore/include"), "-I", os.path.join(SHIM, "host", "a", "b"),
-            "-I", os.path.join(SHIM), "-"]
+    args = ["-x", "c"] + extract_flags(includes) + ["-"]
     ast, _ = _run_clang(args, stdin_text=tu_text)
     tu = TU(ast, HOST, relfile, "extract", "clang -fsyntax-only -Xclang -ast-dump=json " + " ".join(args) + " < (prelude + verbatim cut)",
             extraction=info, source_text=tu_text)
     tu.cut_texts = texts
     tu.prelude_text = prelude
+    tu.includes = tuple(includes)
     _CACHE[key] = tu
     return tu
 
@@ -490,7 +548,7 @@ def vla_bound(tu, fname, decl):
     src = "\nstatic void %s(%s) { (void)(%s); }\n" % (probe, ", ".join(params) or "void", text)
     if tu.mode == "extract":
         full = tu.source_text + src
-        args = ["-x", "c", "-I", repo("src/shared/libosmocore/include"), "-I", os.path.join(SHIM, "host", "a", "b"), "-I", SHIM, "-"]
+        args = ["-x", "c"] + extract_flags(getattr(tu, "includes", ())) + ["-"]
     else:
         full = '#include "%s"\n%s' % (repo(tu.relfile), src)
         args = flags(tu.mode) + ["-x", "c", "-"]
@@ -517,7 +575,7 @@ def check_layout(tu, items):
     lines = ["_Static_assert(sizeof(%s) == %d, \"cvc layout\");" % (e, n) for e, n in items]
     if tu.mode == "extract":
         text = tu.source_text + "\n" + "\n".join(lines) + "\n"
-        args = ["-x", "c", "-I", repo("src/shared/libosmocore/include"), "-I", os.path.join(SHIM, "host", "a", "b"), "-I", SHIM, "-"]
+        args = ["-x", "c"] + extract_flags(getattr(tu, "includes", ())) + ["-"]
     else:
         text = '#include "%s"\n%s\n' % (repo(tu.relfile), "\n".join(lines))
         args = flags(tu.mode) + ["-x", "c", "-"]
